@@ -54,7 +54,7 @@ func vOSInfo(path string) (int64, uint32, bool, uint64) {
 
 func vOSReadDirN(path string) int { return ndChoice("os.nentries", 3) }
 
-const vBase = "/srv/export"
+const vBase = "/b"
 
 // vInside reports whether an OS path lies inside the exported directory.
 func vInside(p string) bool {
